@@ -17,13 +17,22 @@ func (c *Calcium) Send(ctx context.Context, opts *types.SendOptions) (chan *type
 		logger.Error(ctx, err)
 		return nil, err
 	}
+	// a workload listed twice is one target
+	IDs := []string{}
+	seen := map[string]struct{}{}
+	for _, ID := range opts.IDs {
+		if _, ok := seen[ID]; !ok {
+			seen[ID] = struct{}{}
+			IDs = append(IDs, ID)
+		}
+	}
 	ch := make(chan *types.SendMessage)
 	_ = c.pool.Invoke(func() {
 		defer close(ch)
 		wg := &sync.WaitGroup{}
-		wg.Add(len(opts.IDs))
+		wg.Add(len(IDs))
 
-		for _, ID := range opts.IDs {
+		for _, ID := range IDs {
 			logger.Infof(ctx, "Send files to %s", ID)
 			_ = c.pool.Invoke(func(ID string) func() {
 				return func() {
@@ -37,7 +46,10 @@ func (c *Calcium) Send(ctx context.Context, opts *types.SendOptions) (chan *type
 						return nil
 					}); err != nil {
 						logger.Error(ctx, err)
-						ch <- &types.SendMessage{ID: ID, Error: err}
+						// one result per target and file, also when the target cannot be had
+						for _, file := range opts.Files {
+							ch <- &types.SendMessage{ID: ID, Path: file.Filename, Error: err}
+						}
 					}
 				}
 			}(ID))
